@@ -2652,3 +2652,269 @@ def s9(proj, rep, modules=None):
                 rep.ok('S9', fi.qual, f'`{ast.unparse(c)[:50]}` not gated by object state', m, c)
     rep.count('S9.generator_uses_in_methods', n)
     return n
+
+
+# ------------------------------------------------------------------------------------------------ H10 / PAR1 / ST3 / DT10 / P2 / BI2
+RULE_H10 = ('H10: the export CliffordCircuit.to_universal_circuit appends exactly one state-vector gate per recorded gate, by a direct builder call in each arm of the '
+            'arity dispatch; it does not fuse gates by multiplying into the matrix of an earlier gate (the product order of a fused run is the reverse of the '
+            'reading order, and the tableau path does not fuse).')
+RULE_PAR1 = ('PAR1: a parity computed by xor-folding (`p ^= p >> s` for s in a literal tuple) folds every bit of the word: the largest shift is at least 32 for a 64-bit '
+             'index. Shifts (4, 2, 1) fold the low byte only: from 9 qubits on, Z / Y factors on the leading qubits get the wrong sign.')
+RULE_ST3 = ('ST3: whether the caller passed a single item or a batch is read from `ndim` BEFORE the array is flattened; after `x.reshape(-1, L)` the test `x.shape[0] == 1` '
+            'also holds for a batch of one, whose batch axes must be kept.')
+RULE_DT10 = ('DT10: an in-place update with a floating-point quantity (`np.fill_diagonal(x, x.diagonal() + shift)`, `x += eps`) is never applied to a plain copy of an '
+             'input (`x = x.copy()`): the copy keeps the input dtype, so for an integer-typed matrix the shift is truncated to 0. (`x + shift*eye` promotes.)')
+RULE_P2 = ('P2: the irrep blocks of the symmetric-extension SDP factorise as (dimA) x (block/dimA): a `cvxpy.partial_transpose(block, [d0, n//d0], axis)` names dimA as '
+           'the first factor. With dimB the factorisation is wrong for dimA != dimB: the constraint is no longer a positive map on product states and separable '
+           'states become infeasible.')
+RULE_BI2 = ('BI2: the Sp(2n, F2) bookkeeping works with Python integers of unbounded size (digits up to 4^n): no such value is converted to a fixed-width NumPy integer '
+            '(`np.array([int(i)], dtype="<u8")`, `np.array(base) * np.array(..)`): the conversion raises from 2^64 on or wraps silently from n = 17 on.')
+
+
+def h10(proj, rep):
+    rep.rule('H10', RULE_H10)
+    fi = proj.func('numqi.sim.clifford.CliffordCircuit.to_universal_circuit')
+    m = fi.module
+    rep.touch(m)
+    n = 0
+    loop = next((lp for lp in ast.walk(fi.node) if isinstance(lp, ast.For) and 'gate_index_list' in ast.unparse(lp.iter)), None)
+    if loop is None:
+        rep.undecided('H10', fi.qual, 'loop over gate_index_list not found', m, fi.node, text='export loop')
+        return 0
+    chain = next((s for s in loop.body if isinstance(s, ast.If)), None)
+    arms = []
+    if chain is not None:
+        arms.append(chain.body)
+        if chain.orelse:
+            arms.append(chain.orelse)
+    for body in arms:
+        n += 1
+        direct = [s for s in body if any(isinstance(c, ast.Call) and isinstance(c.func, ast.Attribute) and c.func.attr.endswith('_gate') for c in
+                                         ([s.value] if isinstance(s, ast.Expr) else ([s.value] if isinstance(s, ast.Assign) else [])))]
+        nested = [c for s in body for c in ast.walk(s) if isinstance(c, ast.Call) and isinstance(c.func, ast.Attribute) and c.func.attr.endswith('_gate')]
+        if direct:
+            rep.ok('H10', fi.qual, 'arm appends its gate by a direct builder call', m, direct[0])
+        elif nested:
+            rep.violation('H10', fi.qual, f'`{ast.unparse(nested[0])[:60]}` is conditional in this arm: some recorded gates are not appended as gates of their own', m, nested[0])
+        else:
+            n -= 1
+            rep.undecided('H10', fi.qual, 'no builder call in the arm', m, body[0])
+    for s in ast.walk(fi.node):
+        if isinstance(s, ast.Assign) and isinstance(s.targets[0], ast.Attribute) and s.targets[0].attr == 'array':
+            n += 1
+            rep.violation('H10', fi.qual, f'`{ast.unparse(s)[:70]}` multiplies into the matrix of an earlier gate: a fused run is applied in the order of this product, not in '
+                          f'recording order', m, s)
+    rep.count('H10.export_arms', n)
+    return n
+
+
+def par1_st3(proj, rep, modules):
+    rep.rule('PAR1', RULE_PAR1)
+    rep.rule('ST3', RULE_ST3)
+    nfun = 0
+    for fi in proj.iter_functions():
+        m = fi.module
+        if not _in_scope(m, modules):
+            continue
+        nfun += 1
+        for lp in ast.walk(fi.node):
+            if isinstance(lp, ast.For) and isinstance(lp.iter, (ast.Tuple, ast.List)) and all(isinstance(e, ast.Constant) and isinstance(e.value, int) for e in lp.iter.elts) \
+                    and isinstance(lp.target, ast.Name):
+                fold = any(isinstance(b, ast.BinOp) and isinstance(b.op, ast.BitXor) and any(isinstance(y, ast.BinOp) and isinstance(y.op, ast.RShift) and isinstance(y.right, ast.Name)
+                                                                                          and y.right.id == lp.target.id for y in ast.walk(b)) for s in lp.body for b in ast.walk(s))
+                if fold:
+                    mx = max(e.value for e in lp.iter.elts)
+                    rep.touch(m)
+                    if mx < 32:
+                        rep.violation('PAR1', fi.qual, f'`for {lp.target.id} in {ast.unparse(lp.iter)}`: the xor-fold covers the low {2 * mx} bits only; indices of {2 * mx + 1} or more bits '
+                                      f'(qubits) get a wrong parity', m, lp)
+                    else:
+                        rep.ok('PAR1', fi.qual, f'xor-fold with shifts up to {mx}', m, lp)
+        # ST3
+        flat_at = {}
+        for s in ast.walk(fi.node):
+            if isinstance(s, ast.Assign) and isinstance(s.targets[0], ast.Name) and isinstance(s.value, ast.Call) and isinstance(s.value.func, ast.Attribute) \
+                    and s.value.func.attr == 'reshape' and s.value.args and ast.unparse(s.value.args[0]).replace(' ', '') == '-1' \
+                    and isinstance(s.value.func.value, ast.Name) and s.value.func.value.id == s.targets[0].id:
+                flat_at.setdefault(s.targets[0].id, s.lineno)
+        for s in ast.walk(fi.node):
+            if isinstance(s, ast.Assign) and isinstance(s.targets[0], ast.Name) and 'single' in s.targets[0].id and isinstance(s.value, ast.Compare):
+                t = ast.unparse(s.value).replace(' ', '')
+                for arr, ln in flat_at.items():
+                    if s.lineno > ln and (f'{arr}.shape[0]==1' in t or f'len({arr})==1' in t):
+                        rep.touch(m)
+                        rep.violation('ST3', fi.qual, f'`{ast.unparse(s)}` is evaluated after `{arr}` was flattened (line {ln}): a batch holding one item is taken for a single item and '
+                                      f'loses its batch axes', m, s)
+    rep.count('PAR1.functions_scanned', nfun)
+    if nfun:
+        rep.ok('PAR1', 'scope', f'{nfun} functions scanned: no short xor-fold, no single-item flag read after flattening', proj.mod('numqi.utils'), proj.mod('numqi.utils').tree,
+               text='parity fold / single flag sweep')
+    return nfun
+
+
+def dt10(proj, rep, modules=None):
+    rep.rule('DT10', RULE_DT10)
+    n = 0
+    for fi in proj.iter_functions():
+        m = fi.module
+        if not _in_scope(m, modules):
+            continue
+        params = set(fi.all_params)
+        floatp = set()
+        for a, d in zip(reversed(fi.node.args.posonlyargs + fi.node.args.args), reversed(fi.node.args.defaults)):
+            if isinstance(d, ast.Constant) and isinstance(d.value, float):
+                floatp.add(a.arg)
+        for a in fi.node.args.posonlyargs + fi.node.args.args + fi.node.args.kwonlyargs:
+            if a.annotation is not None and ast.unparse(a.annotation) == 'float':
+                floatp.add(a.arg)
+        copies = {}
+        for s in ast.walk(fi.node):
+            if isinstance(s, ast.Assign) and isinstance(s.targets[0], ast.Name) and isinstance(s.value, ast.Call) and isinstance(s.value.func, ast.Attribute) \
+                    and s.value.func.attr == 'copy' and not s.value.args and isinstance(s.value.func.value, ast.Name) and s.value.func.value.id in params:
+                copies[s.targets[0].id] = s
+        if not copies or not floatp:
+            continue
+        for c in ast.walk(fi.node):
+            tgt = val = None
+            if isinstance(c, ast.Call) and ast.unparse(c.func).endswith('fill_diagonal') and len(c.args) >= 2 and isinstance(c.args[0], ast.Name):
+                tgt, val = c.args[0].id, c.args[1]
+            elif isinstance(c, ast.AugAssign) and isinstance(c.target, ast.Name):
+                tgt, val = c.target.id, c.value
+            if tgt in copies and val is not None and c.lineno > copies[tgt].lineno:
+                n += 1
+                rep.touch(m)
+                if any(isinstance(y, ast.Name) and y.id in floatp for y in ast.walk(val)) or any(isinstance(y, ast.Constant) and isinstance(y.value, float) for y in ast.walk(val)):
+                    rep.violation('DT10', fi.qual, f'`{ast.unparse(c)[:70]}` updates `{tgt} = {ast.unparse(copies[tgt].value)}` (input dtype kept) in place with a floating-point quantity: '
+                                  f'for an integer-typed input it is truncated', m, c)
+    rep.count('DT10.inplace_updates_of_input_copies', n)
+    return n
+
+
+def p2(proj, rep, modules=('numqi.entangle.symext',)):
+    from .kdefects import _role
+    rep.rule('P2', RULE_P2)
+    n = 0
+    for fi in proj.iter_functions():
+        m = fi.module
+        if not _in_scope(m, list(modules)):
+            continue
+        for c in ast.walk(fi.node):
+            if isinstance(c, ast.Call) and ast.unparse(c.func).endswith('partial_transpose') and len(c.args) >= 2 and isinstance(c.args[1], (ast.List, ast.Tuple)) and len(c.args[1].elts) == 2:
+                d0, d1 = c.args[1].elts
+                if not (isinstance(d0, ast.Name) and _role(d0.id) is not None and isinstance(d1, ast.BinOp) and isinstance(d1.op, ast.FloorDiv)):
+                    continue
+                n += 1
+                rep.touch(m)
+                if _role(d0.id)[1] == 0 and isinstance(d1.right, ast.Name) and d1.right.id == d0.id:
+                    rep.ok('P2', fi.qual, f'`{ast.unparse(c)[:60]}`: first factor dimA', m, c)
+                else:
+                    rep.violation('P2', fi.qual, f'`{ast.unparse(c)[:80]}` factorises the irrep block with `{d0.id}` as its first factor; the blocks are (dimA) x (block/dimA): wrong '
+                                  f'factorisation whenever dimA != dimB', m, c)
+    rep.count('P2.block_partial_transposes', n)
+    return n
+
+
+def bi2(proj, rep, modules=('numqi.group.spf2',)):
+    rep.rule('BI2', RULE_BI2)
+    n = 0
+    for fi in proj.iter_functions():
+        m = fi.module
+        if not _in_scope(m, list(modules)):
+            continue
+        n += 1
+        for c in ast.walk(fi.node):
+            if not (isinstance(c, ast.Call) and ast.unparse(c.func) in ('np.array', 'np.asarray', 'numpy.array', 'np.uint64', 'np.int64', 'np.fromiter')):
+                continue
+            dt = next((k.value for k in c.keywords if k.arg == 'dtype'), None)
+            dts = ast.unparse(dt) if dt is not None else ''
+            wide = any(k in dts for k in ('u8', 'i8', 'uint64', 'int64')) or ast.unparse(c.func) in ('np.uint64', 'np.int64')
+            arg = c.args[0] if c.args else None
+            from_int = arg is not None and any(isinstance(y, ast.Call) and isinstance(y.func, ast.Name) and y.func.id == 'int' for y in ast.walk(arg))
+            from_base = arg is not None and any(isinstance(y, ast.Name) and y.id in ('base', 'coset', 'int_base') for y in ast.walk(arg)) and dt is None \
+                and isinstance(getattr(c, '_parent', None), ast.BinOp)
+            if (wide and from_int) or from_base:
+                rep.touch(m)
+                rep.violation('BI2', fi.qual, f'`{ast.unparse(c)[:60]}` converts an unbounded Python integer of the Sp(2n,F2) bookkeeping to a fixed-width NumPy integer: it raises from '
+                              f'2^64 on / wraps silently in products from n = 17 on', m, c)
+    rep.count('BI2.functions_scanned', n)
+    if n:
+        rep.ok('BI2', 'numqi.group.spf2', f'{n} functions scanned: no fixed-width conversion of group-size integers', proj.mod('numqi.group.spf2'), proj.mod('numqi.group.spf2').tree,
+               text='bigint conversion sweep')
+    return n
+
+
+# ------------------------------------------------------------------------------------------------ A12 / SD1
+RULE_A12 = ('A12: no `backward` of a torch.autograd.Function selects its formula by the numeric content of an operator / tensor (array_equal / allclose / count_nonzero '
+            '/ all / any): "every factor is Hermitian" does not make their PRODUCT Hermitian, and a formula chosen by the current value is not the derivative at '
+            'neighbouring points.')
+RULE_SD1 = ('SD1: no quotient has a pairwise difference of one vector with itself as denominator (`(f(a_i) - f(a_j)) / (a_i - a_j)` written with two broadcast views of '
+            'the same array) without a guard for equal entries: a repeated eigenvalue gives 0/0 = NaN (maximally mixed, Werner and isotropic states have repeated '
+            'eigenvalues).')
+
+
+def a12(proj, rep):
+    rep.rule('A12', RULE_A12)
+    n = 0
+    for cq, ci in sorted(proj.classes.items()):
+        bases = [ast.unparse(b) for b in ci.node.bases]
+        if not any(b.endswith('autograd.Function') or b == 'Function' for b in bases):
+            continue
+        fi = ci.methods.get('backward')
+        if fi is None:
+            continue
+        m = ci.module
+        rep.touch(m)
+        n += 1
+        bad = None
+        for g in ast.walk(fi.node):
+            if isinstance(g, (ast.If, ast.IfExp)):
+                if any(isinstance(c, ast.Call) and ast.unparse(c.func).split('.')[-1] in ('array_equal', 'allclose', 'count_nonzero', 'isclose', 'equal') for c in ast.walk(g.test)):
+                    bad = g
+        if bad is not None:
+            rep.violation('A12', f'{cq}.backward', f'`{ast.unparse(bad.test)[:70]}` chooses the gradient formula by the current value of an operator', m, bad)
+        else:
+            rep.ok('A12', f'{cq}.backward', 'gradient formula does not branch on operator values', m, fi.node, text=f'{cq}.backward value branches')
+    rep.count('A12.backward_methods', n)
+    return n
+
+
+def sd1(proj, rep, modules=None):
+    rep.rule('SD1', RULE_SD1)
+    n = 0
+
+    def base_of_view(e):
+        cur = e
+        for _ in range(4):
+            if isinstance(cur, ast.Call) and isinstance(cur.func, ast.Attribute) and cur.func.attr in ('view', 'reshape', 'unsqueeze'):
+                cur = cur.func.value
+            elif isinstance(cur, ast.Subscript) and any(_is_newaxis(x) for x in (cur.slice.elts if isinstance(cur.slice, ast.Tuple) else [cur.slice])):
+                cur = cur.value
+            else:
+                break
+        return ast.dump(cur) if cur is not e else None
+
+    def pair_diff(e):
+        return isinstance(e, ast.BinOp) and isinstance(e.op, ast.Sub) and base_of_view(e.left) is not None and base_of_view(e.left) == base_of_view(e.right) \
+            and ast.dump(e.left) != ast.dump(e.right)
+    for fi in proj.iter_functions():
+        m = fi.module
+        if not _in_scope(m, modules):
+            continue
+        for b in ast.walk(fi.node):
+            if not (isinstance(b, ast.BinOp) and isinstance(b.op, ast.Div)):
+                continue
+            den = b.right
+            cands = [den]
+            if isinstance(den, ast.Name):
+                cands = [v for v, st, p in reaching_defs(fi.node, den.id, b) if v != 'param' and isinstance(v, ast.AST)]
+            if any(pair_diff(c) for c in cands):
+                n += 1
+                rep.touch(m)
+                guarded = any(isinstance(p, ast.Call) and ast.unparse(p.func).split('.')[-1] == 'where' for p in _ancestors(b, fi.node))
+                if guarded:
+                    rep.ok('SD1', fi.qual, f'`{ast.unparse(b)[:50]}` inside where()', m, b)
+                else:
+                    rep.violation('SD1', fi.qual, f'`{ast.unparse(b)[:70]}`: the denominator is the pairwise difference of one array with itself: 0/0 for repeated entries '
+                                  f'(degenerate spectra)', m, b)
+    rep.count('SD1.pairwise_difference_quotients', n)
+    return n
